@@ -99,7 +99,7 @@ def run(ctx):
         steps = ",".join("%d:%d:0" % (ids[s[0]], 1 if s[1] else 0) for s in cfg["steps"]) + ",%d:0:1" % (len(cfg["steps"]) + 1)
         exits = ",".join(["0"] + [str(s[3]) for s in cfg["steps"]] + ["0"])
         reqs.append("orchp result %d %s %s %s" % (cfg["ncpu"], ",".join(str(ids[s]) for s in cfg["skip"]) or "-", exits, steps))
-        wants.append("%s %s %s" % ("fail" if failed else "ok", "end" if has_end else "noend", ",".join(str(ids[s]) for s in started)))
+        wants.append("%s %s %s" % ("fail" if failed else "ok", "end" if has_end else "noend", ",".join(str(x) for x in sorted(ids[s] for s in started))))
         infos.append(dict(cfg=cfg))
         # ---- resume a failed invocation (fresh vs resumed)
         if failed and t % 2 == 0 and res["builddir"]:
@@ -171,6 +171,10 @@ def run(ctx):
         kinds["second-" + ("resumed" if resumed else "fresh")] = kinds.get("second-" + ("resumed" if resumed else "fresh"), 0) + 1
     ans = ctx.model(reqs) if reqs else []
     for q, a, w, info in zip(reqs, ans, wants, infos):
+        f = a.strip().split(" ")
+        if len(f) == 3:
+            # the set of steps that ran: parallel steps launched back to back stamp their start in either order
+            a = " ".join(f[:2] + [",".join(str(x) for x in sorted(int(y) for y in f[2].split(",") if y))])
         if a.strip() != w.strip():
             ctx.disagreement("Orch.run vs real canvas (outcome)", dict(request=q[:300], impl=w, model=a, info=info))
     # known findings: re-observe, print, do not fail
